@@ -10,7 +10,7 @@ import time
 
 HERE = os.path.dirname(os.path.abspath(__file__))
 VERIF = os.path.dirname(HERE)
-REPO = "/repo"
+REPO = os.environ.get("MUT_REPO", "/dev/shm/mutrepo")      # a scratch clone; /repo itself is never edited
 
 # (id, properties, file, old, new)
 CATALOG = json.load(open(os.path.join(HERE, "catalog.json")))
@@ -24,7 +24,10 @@ def main():
     args = sys.argv[1:]
     run_tests = "--tests" in args
     only = [a for a in args if not a.startswith("--")]
-    assert sh("git -C /repo status --porcelain").stdout.strip() == b"", "repo tree not clean"
+    if not os.path.isdir(REPO):
+        sh("git clone -q /repo %s" % REPO)
+    sh("git -C %s fetch -q origin && git -C %s reset -q --hard origin/main" % (REPO, REPO))
+    assert sh("git -C %s status --porcelain" % REPO).stdout.strip() == b"", "scratch repo not clean"
     results = []
     for m in CATALOG:
         if only and m["id"] not in only and not (set(m["props"]) & set(only)):
@@ -38,18 +41,18 @@ def main():
             open(path, "w").write(src.replace(m["old"], m["new"]))
             row = {"id": m["id"]}
             if run_tests:
-                r = sh("cd /repo && /venv/bin/python -m pytest -q -p no:cacheprovider -x --deselect "
+                r = sh("cd " + REPO + " && /venv/bin/python -m pytest -q -p no:cacheprovider -x --deselect "
                        "tests/test_parser.py::TestArgumentParsing::test_invalid_file_argument 2>&1 | tail -1")
                 row["tests"] = r.stdout.decode().strip()
             for p in m["props"]:
                 t0 = time.time()
-                r = sh("cd %s && ./check %s --tier quick" % (VERIF, p))
+                r = sh("cd %s && VERIF_REPO=%s ./check %s --tier quick" % (VERIF, REPO, p))
                 lines = [l for l in r.stdout.decode().splitlines() if l.startswith(("VIOLATION", "MACHINERY"))]
                 row[p] = {"rc": r.returncode, "s": round(time.time() - t0), "first": lines[0][:230] if lines else ""}
             print(json.dumps(row))
             results.append(row)
         finally:
-            sh("git -C /repo checkout -- .")
+            sh("git -C %s checkout -- ." % REPO)
     missed = [r["id"] for r in results if not any(isinstance(v, dict) and v["rc"] == 1 for v in r.values())]
     print("MISSED:", missed)
 
